@@ -67,6 +67,7 @@ Svc(name, np, pol, exps, cnt, size) ==
 Web(exps, cnt, size) == Svc("web", "web-np", "akash-web-np", exps, cnt, size)
 Db(exps, cnt, size)  == Svc("db", "db-np", "akash-db-np", exps, cnt, size)
 Api(exps, cnt, size) == Svc("api", "api-np", "akash-api-np", exps, cnt, size)
+Cache(exps, cnt, size) == Svc("cache", "cache-np", "akash-cache-np", exps, cnt, size)
 Settings(lc, lm, ls, np, rt, static) ==
   [cpu |-> LevelTab[lc], mem |-> LevelTab[lm], sto |-> LevelTab[ls], netpol |-> np, runtime |-> RuntimeTab[rt],
    static |-> static, domain |-> Domain]
@@ -109,7 +110,13 @@ GroupTab == << <<Web(<<>>, 1, SizeTab[1])>>,
                <<Web(<<UpdExpose[1]>>, 1, SizeTab[1])>>,
                <<Web(<<UpdExpose[2], UpdExpose[3]>>, 1, SizeTab[1])>>,
                <<Web(<<UpdExpose[3]>>, 1, SizeTab[1]), Db(<<UpdExpose[1], UpdExpose[4]>>, 1, SizeTab[2])>>,
-               <<Web(<<UpdExpose[2]>>, 1, SizeTab[1])>> >>
+               <<Web(<<UpdExpose[2]>>, 1, SizeTab[1])>>,
+               \* manifest updates that REPLACE / rename services at an equal or larger service count:
+               \* 4 {web,db} -> 17 {web,api}, -> 18 {api,cache}, -> 19 {web,api,cache}; 5 {db} -> 1 {web}, 20 {cache}
+               <<Web(<<ExposeTab[7]>>, 1, SizeTab[1]), Api(<<ExposeTab[10], ExposeTab[4]>>, 1, SizeTab[2])>>,
+               <<Api(<<ExposeTab[8]>>, 1, SizeTab[1]), Cache(<<ExposeTab[5]>>, 2, SizeTab[3])>>,
+               <<Web(<<ExposeTab[4]>>, 1, SizeTab[2]), Api(<<>>, 1, SizeTab[1]), Cache(<<ExposeTab[15]>>, 1, SizeTab[4])>>,
+               <<Cache(<<ExposeTab[7], ExposeTab[6]>>, 1, SizeTab[1])>> >>
 GroupsD == {GroupTab[i] : i \in 1..MaxGroupsD}
 GroupsG == {GroupTab[i] : i \in 1..MaxGroupsG}
 SliceD == {In("D", BgL, <<R(g1, BgSettings(TRUE, BgStatic)), R(g2, Settings(2, 1, 3, TRUE, BgRuntime, BgStatic))>>) : g1 \in GroupsD, g2 \in GroupsD}
